@@ -23,6 +23,22 @@ PROBES = ["", "\n", "10", "10 ", "10 A=1", "10 A=1\n", "\n\n10 A=1\n\n", "10 A=1
           "10 STRING$=1", "10 A$=STRING$(3,65)", "10 A=INSTR(A$,B$)", "10 Ä=1", "10 PRINT \"Ä\"", "10 REM Ä"]
 
 
+def property_probes(tier, r):
+    import suite_b09
+    import suite_ctl
+    import suite_expr
+    import suite_names
+    import suite_sem
+    out = list(suite_ctl.PROBES) + ["0 A=1\n" + p for p in suite_ctl.PROBES_ZERO]
+    out += list(suite_sem.PROBES) + list(suite_sem.PROBES_80) + list(suite_sem.DATA_VALUE_PROBES)
+    out += list(suite_names.GENERATED_PROGRAMS)
+    fixed = [t for k, t in suite_b09.programs(tier) if k.endswith("-probe") and k != "size-probe"]
+    out += fixed if tier == "thorough" else r.sample(fixed, min(len(fixed), 500))
+    ex = [c["text"] for c in suite_expr.cases(tier) if c["kind"].endswith("/probe") or c["kind"].endswith("/exhaustive")]
+    out += ex if tier == "thorough" else r.sample(ex, min(len(ex), 400))
+    return out
+
+
 def cases(tier):
     r = rng("parse-suite")
     texts = [(p, "probe") for p in PROBES]
@@ -41,6 +57,9 @@ def cases(tier):
     for c in (lay if tier == "thorough" else r.sample(lay, min(len(lay), 400))):
         if c["kind"] != "single" or r.random() < 0.2:
             texts.append((c["text"], "layout-" + c["kind"]))
+    # the probe programs of the property suites: the shapes the property oracles look at are also the shapes on which the
+    # front-half model is tied to the real parser and visitor
+    texts += [(t, "prop-probe") for t in property_probes(tier, r)]
     seen, out = set(), []
     for t, kind in texts:
         if t in seen:
